@@ -1,13 +1,13 @@
 package main
 
 import (
-	"os"
 	"bytes"
 	"encoding/json"
 	"fmt"
 	"go/ast"
 	"go/printer"
 	"go/types"
+	"os"
 	"sort"
 	"strings"
 )
